@@ -315,6 +315,11 @@ def run(rep, tier, rng):
     # D21 (known finding): an unsafe entry inside a safe container evaluated before the call that references the container
     scen.append(dict(docs=[parse_doc("{d: {x: !unsafe 105}, c: !call:vmod.u3 {a: !xref d}}")], safes=[True]))
     scen.append(dict(docs=[parse_doc("{d: [101, !unsafe 105], c: !call:vmod.u3 [!xref d]}")], safes=[True]))
+    # an unsafe dynamic node MOVED (by !prev, or through a mapping addressing a list index) below a safe parent that re-propagates inherited flags:
+    # the inherited unsafety must survive although the !unsafe marker is no longer above the node
+    for tgt, wrap in (('vmod.u4', '[{name: first, hook: !prev plugins.hook}]'), ('vmod.u5', '{k: [!prev plugins.hook, 1]}'), ('vmod.u6', '!del {m: {hook: !prev plugins.hook}}')):
+        scen.append(dict(docs=[parse_doc("{plugins: !unsafe {hook: !call:%s {x: 1}, o: 2}, z: 0}" % tgt), parse_doc("{jobs: %s}" % wrap)], safes=[True, True]))
+    scen.append(dict(docs=[parse_doc("{jobs: [{name: first, opts: {a: 1}}]}"), parse_doc("{jobs: !unsafe {0: {hook: !call:vmod.u7 {x: 1}}}}")], safes=[True, True]))
     for _ in range(150 if tier == 'quick' else 1500):
         c = gen_ref_case(rng)
         scen.append(dict(docs=[parse_doc(t) for t in c['docs_text']], safes=c['safes']))
